@@ -26,8 +26,10 @@ CHECKS = {
     "C09": {
         "text": "Coq theorem C09_coherent, generic in any regular entry parser (succeeds iff size bytes remain, then advances by size): len = "
                 "bytes/size, is_empty <-> len = 0, get(i) Ok <-> i < len for every i (incl. overflow), iteration yields exactly len items with "
-                "j-th = get(j), None forever after the first None; C09_entry_types shows the 9 entry types are regular. Tie + metamorphic oracle: "
-                "the laws are evaluated on the implementation's own outputs for every ragged length 0..4*entsize-1.",
+                "j-th = get(j), None forever after the first None; C09_next_sequence (the j-th next() call is get(j) or None, for any number of "
+                "calls), C09_nth (provided Iterator::nth after k next() calls = entry k+n or None); C09_entry_types shows the 9 entry types are "
+                "regular. Tie + metamorphic oracle: the laws are evaluated on the implementation's own outputs for every ragged length "
+                "0..4*entsize-1, incl. scripts of next/nth/take/count/last/step_by/skip/fold on a partly advanced iterator.",
         "note": STD_NOTE,
         "technique": "Coq proof (induction over entries) + correspondence + metamorphic laws on implementation outputs",
     },
@@ -117,10 +119,11 @@ CHECKS = {
                 "table_spec gives r: offset 0 = absent; else declared entry size = the class's structure size and [off, off+size*n) inside the "
                 "file, n = e_shnum or shdr[0].sh_size when 0 / e_phnum or shdr[0].sh_info when 0xffff; otherwise not Ok), C05_entry_count "
                 "(the located table has exactly n entries), C05_open (minimal_parse = Ok eb IFF open_spec: ident accepted, header = C02 "
-                "decoding, both tables per the rule), C05_strtab (e_shstrndx = 0 / index / SHN_XINDEX -> shdr[0].sh_link), C05_entsize, "
+                "decoding, both tables per the rule), C05_open_stream (the stream parser opens IFF open_spec and then holds that handle's header and "
+                "eager tables), C05_strtab (e_shstrndx = 0 / index / SHN_XINDEX -> shdr[0].sh_link), C05_entsize, "
                 "C05_validate_entsize. Tie: boundary values in every table-locating field of the ELF header and shdr[0], wrong entry "
-                "sizes, extended numbering incl. files with > 0xff00 sections, tables touching EOF; independent python reading of the header.",
-        "note": STD_NOTE + " The stream parser's side of this property (vectors of exactly n decoded headers) is covered by the stream model of C07.",
+                "sizes, extended numbering incl. files with > 0xff00 sections, tables touching EOF, each file through ElfBytes and through ElfStream; independent python reading of the header.",
+        "note": STD_NOTE,
         "technique": "Coq proof (iff between the monadic code and a declarative spec) + extraction-based differential correspondence",
     },
     "C20": {
